@@ -81,6 +81,42 @@ def extract_function(src, sig_re, which=0):
     return dict(head=src[m.start():i], init=between, body=src[k:e + 1],
                 start_line=src.count('\n', 0, m.start()) + 1, end_line=src.count('\n', 0, e) + 1)
 
+# ---------------------------------------------------------------------------------------------------------------------
+# alpha-renaming of locals: contracts (loop invariants, havoc lists, name-keyed lowering tables) name the locals of the real
+# function.  A maintainer renaming a local must not turn into "extraction broke".  units/<unit>/pins.json records, per
+# source function, the locals in declaration order as they were when the unit was written (./xv pin).  If the current text
+# declares the same NUMBER of locals and only some names differ (a pure rename), the new names are mapped back to the pinned
+# ones before lowering.  Anything else (locals added/removed) is left alone: the ordinary rules then decide or give up.
+_NOT_A_TYPE = {'return', 'else', 'delete', 'new', 'goto', 'throw', 'case', 'typedef', 'using', 'sizeof', 'co_return', 'do', 'if', 'while', 'for', 'switch',
+               'break', 'continue', 'default', 'assert', 'static_assert', 'namespace', 'struct', 'class', 'enum', 'union', 'operator', 'template', 'friend', 'public', 'private', 'protected'}
+_DECL_RE = re.compile(r'(?:^|[;{}(])\s*((?:(?:const|constexpr|static|volatile|typename|unsigned|signed|long|short|mutable)\s+)*'
+                      r'[A-Za-z_]\w*(?:::[A-Za-z_]\w*)*(?:<[^;{}()]*?>)?(?:::[A-Za-z_]\w*)*)(?:\s+const\b)?(?:\s+|\s*[&*]+\s*)(?:const\s+)?'
+                      r'([A-Za-z_]\w*)\b\s*(?==[^=]|;|\{|\()')
+def declared_locals(body):
+    """names of the locals a C++ function body declares, in order (conservative text scan; duplicates kept once)"""
+    out = []
+    for m in _DECL_RE.finditer(body):
+        ty = m.group(1).split()[-1] if m.group(1).split() else ''
+        first = re.match(r'[A-Za-z_]\w*', m.group(1).strip())
+        words = set(re.findall(r'[A-Za-z_]\w*', m.group(1)))
+        if words & _NOT_A_TYPE: continue
+        name = m.group(2)
+        if name in _NOT_A_TYPE or name in ('const', 'volatile'): continue
+        if name not in out: out.append(name)
+    return out
+
+def canonicalize_locals(body, pinned):
+    """returns (body', renames) - see the comment above"""
+    cur = declared_locals(body)
+    if not pinned or cur == pinned or len(cur) != len(pinned): return body, []
+    ren = [(c, p) for c, p in zip(cur, pinned) if c != p]
+    toks = set(re.findall(r'[A-Za-z_]\w*', body))
+    for c, p in ren:
+        if p in toks or c in pinned: return body, []          # the pinned name is still in use / names were permuted: not a pure rename
+    for c, p in ren:
+        body = re.sub(r'(?<![\w.>])%s\b' % re.escape(c), p, body)   # not a member access (.x / ->x)
+    return body, ren
+
 def extract_const(src, regex):
     # whitespace-tolerant: a literal blank in the unit's regex matches any run of white space (a reformatted definition
     # that is split over lines is still found); blanks inside character classes are left alone
@@ -309,7 +345,7 @@ class Lowerer:
         return s
 
     def autos(self, s):
-        s, n = re.subn(r'\b(?:const\s+)?auto\s*\*?\s*(?=\w+\s*(=|;))', '__auto_type ', s)
+        s, n = re.subn(r'\b(?:const\s+)?auto(?:\s+const\b)?\s*\*?\s*(?:const\s+)?(?=\w+\s*(=|;|\{))', '__auto_type ', s)
         if n: self.fire('auto', n)
         return s
 
@@ -537,7 +573,7 @@ def assigned_idents(body):
                 elif t[j] == ',' and d == 1: break
                 if d == 0: break
                 j += 1
-            ids = [y for y in t[i + 2:j] if IDENT.match(y) and y != 'self' and not y.endswith('_t')
+            ids = [y for k, y in enumerate(t[i + 2:j], i + 2) if IDENT.match(y) and y != 'self' and not y.endswith('_t') and not (k + 1 < len(t) and t[k + 1] == '(')   # a macro/function applied to the object is not the object
                    and y not in ('unsigned', 'signed', 'int', 'long', 'short', 'char', 'struct', 'const', 'void', 'bool', '_Bool')]
             # the written object: every identifier that is not an index expression is over-approximated in
             out.update(ids)
